@@ -890,3 +890,193 @@ Proof.
     rewrite (mean_dense L2 A P2 Rcols kcols mstar S2 t j alpha) by (try assumption; congruence).
     reflexivity.
 Qed.
+
+(* ---- the model's Cholesky factorisation (row by row = repeated extension) -------- *)
+Definition Symmetric (A : rmat) : Prop := forall i j, entry A i j = entry A j i.
+Definition block (k : nat) (A : rmat) : rmat := map (firstn k) (firstn k A).
+
+(* "potrf does not fail": every pivot a_kk - |lvec|^2 is positive *)
+Fixpoint chol_ok (A : rmat) (L : rmat) : Prop :=
+  match A with
+  | [] => True
+  | arow :: A' =>
+      let k := length L in
+      let lvec := fsubstR L (firstn k arow) in
+      0 < nth k arow 0 - dotR lvec lvec /\
+      chol_ok A' (chol_extend NumR L lvec (sqrt (Rmax (nth k arow 0 - dotR lvec lvec) 0)))
+  end.
+
+Lemma firstn_succ_nth {A} (l : list A) (d : A) : forall k, (k < length l)%nat ->
+  firstn (S k) l = firstn k l ++ [nth k l d].
+Proof.
+  induction l as [|x l IH]; intros k Hk; simpl in Hk; [lia|].
+  destruct k as [|k]; [reflexivity|].
+  change (firstn (S (S k)) (x :: l)) with (x :: firstn (S k) l).
+  change (firstn (S k) (x :: l)) with (x :: firstn k l).
+  change (nth (S k) (x :: l) d) with (nth k l d).
+  rewrite (IH k) by lia. reflexivity.
+Qed.
+
+Lemma nth_firstn_lt {A} (l : list A) (d : A) : forall k i, (i < k)%nat -> nth i (firstn k l) d = nth i l d.
+Proof.
+  induction l as [|x l IH]; intros k i Hi.
+  - rewrite firstn_nil. reflexivity.
+  - destruct k as [|k]; [lia|]. destruct i as [|i]; [reflexivity|].
+    change (firstn (S k) (x :: l)) with (x :: firstn k l). cbn [nth]. apply IH. lia.
+Qed.
+
+Lemma In_firstn {A} (l : list A) k x : In x (firstn k l) -> In x l.
+Proof. intros H. rewrite <- (firstn_skipn k l). apply in_or_app. left. exact H. Qed.
+
+Lemma skipn_cons_nth {A} (l : list A) (d : A) : forall k x r, skipn k l = x :: r ->
+  nth k l d = x /\ skipn (S k) l = r /\ (k < length l)%nat.
+Proof.
+  induction l as [|y l IH]; intros k x r H.
+  - rewrite skipn_nil in H. discriminate.
+  - destruct k as [|k].
+    + simpl in H. injection H as -> ->. simpl. repeat split. lia.
+    + cbn [skipn] in H. destruct (IH k x r H) as [H1 [H2 H3]]. cbn [nth skipn length]. repeat split; try assumption. lia.
+Qed.
+
+Lemma block_succ (A : rmat) k :
+  Square A -> Symmetric A -> (k < length A)%nat ->
+  sym_extend (block k A) (firstn k (nth k A [])) (entry A k k) = block (S k) A.
+Proof.
+  intros Hsq Hsym Hk. unfold sym_extend, block.
+  rewrite (firstn_succ_nth A [] k Hk), map_app. cbn [map].
+  assert (Hrow : length (nth k A []) = length A).
+  { unfold Square in Hsq. rewrite Forall_forall in Hsq. apply Hsq. apply nth_In. exact Hk. }
+  f_equal.
+  - assert (E : firstn k (nth k A []) = map (fun r => nth k r 0) (firstn k A)).
+    { apply (nth_ext _ _ 0 0).
+      - rewrite map_length, !firstn_length. lia.
+      - intros i Hi. rewrite firstn_length in Hi.
+        rewrite (map_nth_lt _ (firstn k A) i [] 0) by (rewrite firstn_length; lia).
+        rewrite (nth_firstn_lt _ _ k i) by lia. rewrite (nth_firstn_lt A [] k i) by lia.
+        apply (Hsym k i). }
+    rewrite E, map2_map_map. apply map_ext_in. intros r Hr.
+    assert (Hlr : length r = length A).
+    { unfold Square in Hsq. rewrite Forall_forall in Hsq. apply Hsq. apply (In_firstn A k r Hr). }
+    rewrite (firstn_succ_nth r 0 k) by lia. reflexivity.
+  - rewrite (firstn_succ_nth (nth k A []) 0 k) by lia. reflexivity.
+Qed.
+
+Lemma chol_rows_cons (arow : rvec) (A' L : rmat) (clamp : R) :
+  chol_rows NumR (arow :: A') L clamp =
+  chol_rows NumR A' (chol_extend NumR L (fsubstR L (firstn (length L) arow))
+     (sqrt (Rmax (nth (length L) arow 0 - dotR (fsubstR L (firstn (length L) arow))
+                                              (fsubstR L (firstn (length L) arow))) clamp))) clamp.
+Proof. reflexivity. Qed.
+
+Lemma chol_extend_length (L : rmat) (lvec : rvec) (lscal : R) :
+  length (chol_extend NumR L lvec lscal) = S (length L).
+Proof. unfold chol_extend. rewrite app_length, map_length. simpl. lia. Qed.
+
+Lemma chol_rows_correct (Afull : rmat) : Square Afull -> Symmetric Afull ->
+  forall (Arest L : rmat), Arest = skipn (length L) Afull ->
+    LowerTri L -> Square L -> gramR L = block (length L) Afull -> chol_ok Arest L ->
+    LowerTri (chol_rows NumR Arest L 0) /\ Square (chol_rows NumR Arest L 0) /\
+    gramR (chol_rows NumR Arest L 0) = Afull.
+Proof.
+  intros HsqA Hsym Arest. induction Arest as [|arow A' IH]; intros L Hrest Hlt Hsq Hg Hok.
+  - simpl. split; [exact Hlt|]. split; [exact Hsq|]. rewrite Hg.
+    assert (Hk1 : (length Afull <= length L)%nat).
+    { pose proof (skipn_length (length L) Afull) as Hl. rewrite <- Hrest in Hl. simpl in Hl. lia. }
+    unfold block. rewrite firstn_all2 by exact Hk1.
+    rewrite <- (map_id Afull) at 2. apply map_ext_in. intros r Hr.
+    apply firstn_all2. unfold Square in HsqA. rewrite Forall_forall in HsqA. rewrite (HsqA r Hr). exact Hk1.
+  - symmetry in Hrest. destruct (skipn_cons_nth Afull [] (length L) arow A' Hrest) as [Hrow [Hskip Hk]].
+    destruct Hok as [Hpos Hok]. rewrite chol_rows_cons.
+    set (k := length L) in *.
+    set (lvec := fsubstR L (firstn k arow)) in *.
+    set (raw := nth k arow 0 - dotR lvec lvec) in *.
+    assert (Hrl : length arow = length Afull).
+    { unfold Square in HsqA. rewrite Forall_forall in HsqA. apply HsqA. rewrite <- Hrow. apply nth_In. exact Hk. }
+    assert (Hfl : length (firstn k arow) = length L) by (rewrite firstn_length; fold k; lia).
+    assert (Hlv : length lvec = length L) by (apply fsubst_length; assumption).
+    assert (Hmv : mvR L lvec = firstn k arow) by (apply fsubst_solves; assumption).
+    assert (Hmax : Rmax raw 0 = raw) by (apply Rmax_left; lra).
+    rewrite Hmax in *.
+    assert (Hls : sqrt raw <> 0) by (apply Rgt_not_eq; apply sqrt_lt_R0; exact Hpos).
+    assert (Hss : sqrt raw * sqrt raw = raw) by (apply sqrt_sqrt; lra).
+    apply IH.
+    + rewrite chol_extend_length. fold k. symmetry. exact Hskip.
+    + apply chol_extend_lower; assumption.
+    + apply chol_extend_square; assumption.
+    + rewrite chol_extend_length. fold k.
+      assert (HF : Forall (fun r : rvec => length r = length lvec) L).
+      { apply Forall_forall. intros r Hr. unfold Square in Hsq. rewrite Forall_forall in Hsq.
+        rewrite (Hsq r Hr). symmetry. exact Hlv. }
+      rewrite (gram_chol_extend L lvec (sqrt raw) HF).
+      rewrite Hg, Hmv, Hss. fold k. rewrite <- (block_succ Afull k HsqA Hsym Hk). rewrite Hrow.
+      f_equal. f_equal. f_equal. unfold entry. rewrite Hrow. unfold raw. tR. lra.
+    + exact Hok.
+Qed.
+
+Lemma cholesky_correct (A : rmat) :
+  Square A -> Symmetric A -> chol_ok A [] ->
+  LowerTri (cholesky NumR A) /\ Square (cholesky NumR A) /\ gramR (cholesky NumR A) = A.
+Proof.
+  intros Hsq Hsym Hok. unfold cholesky. apply (chol_rows_correct A Hsq Hsym A []).
+  - reflexivity.
+  - intros i Hi. simpl in Hi. lia.
+  - constructor.
+  - reflexivity.
+  - exact Hok.
+Qed.
+
+Lemma cholesky_computations_state (K : rmat) (sigsq : R) (Ycols : list rvec) (mvec : rvec) :
+  let A := add_diag NumR K sigsq in
+  Square A -> Symmetric A -> chol_ok A [] -> length mvec = length A ->
+  Forall (fun y => length y = length A) Ycols ->
+  StateOK (fst (cholesky_computations NumR K sigsq Ycols mvec)) A
+          (snd (cholesky_computations NumR K sigsq Ycols mvec))
+          (map (fun y => vsub NumR y mvec) Ycols).
+Proof.
+  intros A Hsq Hsym Hok Hm HY. unfold cholesky_computations. fold A. cbn [fst snd].
+  destruct (cholesky_correct A Hsq Hsym Hok) as [Hlt [HsqL Hg]].
+  assert (Hlen : length (cholesky NumR A) = length A).
+  { transitivity (length (gramR (cholesky NumR A))); [symmetry; apply gram_length | f_equal; exact Hg]. }
+  apply pred_mat_state; try assumption.
+  - tR. rewrite Hlen. exact Hm.
+  - tR. rewrite Hlen. exact HY.
+Qed.
+
+(* AddJitterOp forward only touches the diagonal *)
+Lemma nth_skipn_add {A} (l : list A) (d : A) : forall k i, nth i (skipn k l) d = nth (k + i) l d.
+Proof.
+  induction l as [|x l IH]; intros k i.
+  - rewrite skipn_nil. destruct i, k; reflexivity.
+  - destruct k as [|k]; [reflexivity|]. cbn [skipn Nat.add nth]. apply IH.
+Qed.
+
+Lemma add_diag_row (row : rvec) (s : R) m j : (m < length row)%nat ->
+  nth j (firstn m row ++ match skipn m row with [] => [] | d :: r => (d + s) :: r end) 0 =
+  if Nat.eqb j m then nth m row 0 + s else nth j row 0.
+Proof.
+  intros Hm. rewrite (skipn_nth_cons row m Hm).
+  assert (Hf : length (firstn m row) = m) by (rewrite firstn_length; lia).
+  destruct (Nat.eqb_spec j m) as [->|Hne].
+  - rewrite app_nth2 by lia. rewrite Hf, Nat.sub_diag. reflexivity.
+  - destruct (Nat.lt_ge_cases j m) as [Hlt|Hge].
+    + rewrite app_nth1 by lia. apply nth_firstn_lt. exact Hlt.
+    + rewrite app_nth2 by lia. rewrite Hf. destruct (j - m)%nat as [|q] eqn:E; [lia|].
+      cbn [nth]. rewrite nth_skipn_add. f_equal. lia.
+Qed.
+
+Lemma add_diag_from_entry (K : rmat) (s : R) : forall k i j,
+  (i < length K)%nat -> (k + i < length (nth i K []))%nat ->
+  entry (add_diag_from NumR k K s) i j = if Nat.eqb j (k + i) then entry K i j + s else entry K i j.
+Proof.
+  induction K as [|row K IH]; intros k i j Hi Hr; simpl in Hi; [lia|].
+  destruct i as [|i].
+  - unfold entry. cbn [add_diag_from nth]. cbn [nth] in Hr. rewrite Nat.add_0_r in *.
+    rewrite add_diag_row by exact Hr. destruct (Nat.eqb_spec j k) as [->|]; reflexivity.
+  - unfold entry in *. cbn [add_diag_from nth]. cbn [nth] in Hr.
+    replace (k + S i)%nat with (S k + i)%nat in * by lia. apply IH; [lia | exact Hr].
+Qed.
+
+Lemma add_diag_entry (K : rmat) (s : R) i j :
+  (i < length K)%nat -> (i < length (nth i K []))%nat ->
+  entry (add_diag NumR K s) i j = if Nat.eqb j i then entry K i j + s else entry K i j.
+Proof. intros Hi Hr. unfold add_diag. apply (add_diag_from_entry K s 0 i j Hi). exact Hr. Qed.
